@@ -282,4 +282,33 @@ def annotateOpts (oopts : List (Nat × Nat)) (own opts : Nat) (evs : List Ev) : 
 def showEvsO (l : List (Ev × Nat)) : String :=
   "[" ++ ",".intercalate (l.map fun e => s!"b{e.1.1}:{e.1.2.toString}:o{e.2}") ++ "]"
 
+/-! ### processing options and the verdict
+
+`Options` (chain/src/types.rs): `SKIP_POW` skips `validate_pow_only` and the difficulty rules of
+`validate_header`; `SYNC` and `MINE` are read NOWHERE in `chain/` (they travel to the adapter and
+into the orphan pool). A proof-of-work fault of a block is carried as a tag `pow:<class>`; with
+`SKIP_POW` it is not looked at, without it it is a header-stage fault (`validate_pow_only` sits in
+`validate_header`, after the cheap header rules). -/
+
+structure Opts where
+  skipPow : Bool := true
+  sync : Bool := false
+  mine : Bool := false
+deriving Repr, DecidableEq
+
+/-- bits: SKIP_POW 1, SYNC 2, MINE 4 -/
+def Opts.ofBits (n : Nat) : Opts := { skipPow := n % 2 == 1, sync := (n / 2) % 2 == 1, mine := (n / 4) % 2 == 1 }
+
+def isPowTag (t : String) : Bool := t.startsWith "pow:"
+
+/-- the block as the pipeline sees it under the given options -/
+def Blk.withOpts (b : Blk) (o : Opts) : Blk :=
+  if o.skipPow then { b with tags := b.tags.filter (fun t => !isPowTag t) }
+  else { b with tags := (b.tags.filter isPowTag).map (fun t => "hdr:" ++ (t.drop 4).toString) ++ b.tags.filter (fun t => !isPowTag t) }
+
+/-- `Chain::process_block_single(b, opts)` -/
+def processBlockSingleO (p : Params) (deny : List Nat) (o : Opts) (n : Node) (b : Blk) :
+    Node × DRes × Option BStatus :=
+  processBlockSingleK p deny n (b.withOpts o)
+
 end GV.Chain
